@@ -32,7 +32,10 @@ def main():
         for r in L.rows:
             a = r["acc"]
             if r["cls"] == "GUARDED" and a.idx is not None and bounds.atoms_datadep_noiv(a.idx):
-                guarded[a.key()] = a.show_key()
+                g = guarded.setdefault(a.key(), dict(shown=a.show_key(), conds=None))
+                rc = set(a.relevant_conds())
+                # the conditions every guarded occurrence of this access has in common
+                g["conds"] = rc if g["conds"] is None else (g["conds"] & rc)
         proven_at = collections.defaultdict(list)
         need_at = collections.defaultdict(list)
         for r in L.rows:
@@ -59,10 +62,10 @@ def main():
     for k, v in sorted(sites.items()):
         print("%3d  %s" % (v, shown[k]))
     print("%d sites, %d accesses" % (len(sites), sum(sites.values())))
-    print("%d input-dependent accesses proven by a dominating condition (guarded): %s" % (len(guarded), sorted(guarded.values())[:60]))
+    print("%d input-dependent accesses proven by a dominating condition (guarded): %s" % (len(guarded), sorted(v["shown"] for v in guarded.values())[:60]))
     if "--write" in sys.argv:
         rows = [dict(function=k[0], array=k[1], access=k[2], conds=list(k[3]), n=v, shown=shown[k], why=why_of[k]) for k, v in sorted(sites.items())]
-        grows = [dict(function=k[0], array=k[1], access=k[2], shown=v) for k, v in sorted(guarded.items())]
+        grows = [dict(function=k[0], array=k[1], access=k[2], shown=v["shown"], conds=sorted(v["conds"] or ())) for k, v in sorted(guarded.items())]
         with open(os.path.join(VERIF, "rules", "c20_sites.json"), "w") as f:
             json.dump(dict(sites=rows, guarded=grows), f, indent=0, sort_keys=True)
             f.write("\n")
